@@ -707,6 +707,14 @@ func (c *Ctx) metaConvertByFolding() (string, int, bool) {
 // checker's own arithmetic: dominant moves the tonic up a fifth, subdominant down, keeping the mode; relative keeps the
 // signature (a minor third down to the minor, up to the major); parallel keeps the tonic; the member answered lists
 // every supported spelling of that key and nothing else; every chain succeeds. ok=false when something does not fold.
+func (c *Ctx) circleVerdict() (string, int, bool) {
+	if c.circleFold == nil {
+		p, n, ok := c.circleByFolding()
+		c.circleFold = &foldVerdict{p, n, ok}
+	}
+	return c.circleFold.problem, c.circleFold.n, c.circleFold.ok
+}
+
 func (c *Ctx) circleByFolding() (string, int, bool) {
 	newC, conv := c.fn("op", "NewCircleOfFifth"), c.fn("op", "KeyConversionChain.Convert")
 	if newC == nil || conv == nil || len(conv.Params) != 3 {
